@@ -879,6 +879,15 @@ func hookFor(c *CheckSpec, failed *bool) func(args.ReadOnly) (*args.Args, error)
 				return nil, err
 			}
 			return a, nil
+		case "add-include":
+			// the same through a fresh collection: Include, then Add
+			a := args.New()
+			a.Include(ro)
+			if err := a.Add(c.HookKey, valToGo(*c.HookVal)); err != nil {
+				*failed = legit(c.HookKey, valToGo(*c.HookVal))
+				return nil, err
+			}
+			return a, nil
 		case "remove", "replace":
 			a := args.New()
 			for k, v := range ro.Iter() {
@@ -904,7 +913,7 @@ func hookFor(c *CheckSpec, failed *bool) func(args.ReadOnly) (*args.Args, error)
 func hookedArgs(c *CheckSpec, in []KV) []KV {
 	var out []KV
 	switch c.Hook {
-	case "add":
+	case "add", "add-include":
 		out = append(append(out, in...), KV{c.HookKey, *c.HookVal})
 	case "remove", "replace":
 		for _, kv := range in {
@@ -1181,7 +1190,7 @@ func repPattern(inv *InvSpec, dl []*DlgSpec) string {
 func (w *worldExec) check(c *CheckSpec) {
 	d0 := w.decideOne(c.Inv, c, false)
 	w.decideOne(c.Inv, c, true)
-	if c.Hook == "add" || c.Hook == "replace" {
+	if c.Hook == "add" || c.Hook == "add-include" || c.Hook == "replace" {
 		// the same hook once more on the same token object: what the first evaluation's hook did to
 		// its writeable clone must not have reached the token
 		w.decideOne(c.Inv, c, true)
